@@ -31,7 +31,8 @@ ToSet(q) == {q[k] : k \in 1..Len(q)}
 
 ClausesOf ==
   [C18 |-> {"C18_ReturnBy", "C18_Iff", "C18_SucceedsWhenKnown", "C18_NoEarlyGiveUp", "C18_CacheFirst", "C18_FromLiveSrv",
-            "C18_FromLiveTxt", "C18_AddressesOfHost", "C18_AllFromCache", "C18_NoException", "C18_QuThenQm", "C18_OnlyMissingQuestions"},
+            "C18_FromLiveTxt", "C18_AddressesOfHost", "C18_AllFromCache", "C18_NoException", "C18_QuThenQm", "C18_OnlyMissingQuestions",
+            "C18_FirstQueryAsks"},
    C13 |-> {"C13_LookupQuestions", "C13_LookupKnownAnswers", "C13_QuThenQm", "C13_LookupSchedule", "C13_LookupSpacing",
             "C13_LookupShape"}]
 Own(clause) == \/ D.own = "ALL" \/ clause \in {"Trace_Malformed", "C15_NoException"} \/ clause \in ClausesOf[D.own]
@@ -132,6 +133,12 @@ OnQuery(st, e) ==
   ELSE IF Bad(~e.mc \/ e.tc \/ e.nauth # 0 \/ e.nadd # 0 \/ e.flags # 0, "C13_LookupShape") THEN Fail(st, "C13_LookupShape")
   ELSE [st EXCEPT !.lk.pend = <<e>>]
 
+(* a query of another lookup for the same instance on this host: its QM questions are questions "this instance asked" *)
+OnBgQuery(st, e) ==
+  [st EXCEPT !.hist = [q \in 1..4 |-> [w \in {"inst", "h1", "h2"} |->
+      IF \E k \in 1..Len(e.qs) : e.qs[k].q = q /\ e.qs[k].who = w /\ ~e.qs[k].qu
+      THEN [t |-> e.t, ka |-> {i \in ToSet(e.ka) : i \in Ids /\ Kind(i) = QKind(q)}] ELSE st.hist[q][w]]]]
+
 (* the lookup's send opportunity (its anti-synchronisation jitter is drawn right after the query was built) *)
 OnOpportunity(st, e) ==
   LET t == e.t
@@ -146,6 +153,8 @@ OnOpportunity(st, e) ==
      \* C18 states the same progression, and that questions whose answers are held are left out (C13 adds the suppression rules)
      ELSE IF Bad(sent /\ \E x \in ToSet(lk.pend[1].qs) : x.qu # qu, "C18_QuThenQm") THEN Fail(st, "C18_QuThenQm")
      ELSE IF Bad(\E q \in obs : q <= 2 /\ Ka(st, q, t) # {}, "C18_OnlyMissingQuestions") THEN Fail(st, "C18_OnlyMissingQuestions")
+     \* "otherwise it asks first by QU": the first query of a lookup is never suppressed, it carries every question it needs
+     ELSE IF Bad(qu /\ obs # qsExp, "C18_FirstQueryAsks") THEN Fail(st, "C18_FirstQueryAsks")
      ELSE IF Bad(obs # qsExp, "C13_LookupQuestions") THEN Fail(st, "C13_LookupQuestions")
      ELSE IF Bad(sent /\ \E x \in ToSet(lk.pend[1].qs) : x.who # QWho(st, x.q) \/ x.cls # 1, "C13_LookupQuestions") THEN Fail(st, "C13_LookupQuestions")
      ELSE IF Bad(sent /\ {<<p[1], p[2]>> : p \in ToSet(lk.pend[1].ka)} # ExpectedKa(st, t), "C13_LookupKnownAnswers") THEN Fail(st, "C13_LookupKnownAnswers")
@@ -188,6 +197,7 @@ Step(st0, e) ==
           [] e.ev = "lookup" -> OnLookup(st, e)
           [] e.ev = "query"  -> OnQuery(st, e)
           [] e.ev = "rand"   -> OnOpportunity(st, e)
+          [] e.ev = "bgquery" -> OnBgQuery(st, e)
           [] e.ev = "ret"    -> OnRet(st, e)
           [] e.ev = "end"    -> IF Bad(st.lk.on, "C18_ReturnBy") THEN Fail(st, "C18_ReturnBy") ELSE st
           [] e.ev = "badsend" -> Fail(st, "C13_LookupShape")
